@@ -30,7 +30,10 @@ func (n Name) pack(msg []byte, off int, compression map[string]uint16) (int, err
 	scanner := NewNameScanner(n)
 	for scanner.Scan() {
 		seg := scanner.Label()
-		labelStart := scanner.LabelOff()
+		// The table key must start at the length octet of the label. Without
+		// it, a label whose content looks like "<label><len><label>..." would
+		// be taken for the suffix of another name.
+		labelStart := scanner.LabelOff() - 1
 		// We can only compress domain suffixes starting with a new
 		// segment. A pointer is two bytes with the two most significant
 		// bits set to 1 to indicate that it is a pointer.
